@@ -1,4 +1,5 @@
 """C17 — Measurement helpers sample on the documented cadence and report true averages."""
+from checks import big_scale
 from checks import pure_fns
 from checks import api_cov
 from checks import scale_inv
@@ -67,4 +68,5 @@ def main(ck):
     ]
     api_cov.run(ck, "c17")   # otherwise unexercised public API, model-free oracles of this property
     scale_inv.run(ck, "c17")   # power-of-two unit change: identical trajectory, energies exactly scaled (model-free twin oracle)
+    big_scale.run(ck, "longrun.tally")   # large-scale regime (>65536 bonds/ops/slots, release semantics): model-free oracles of the property statements
     return ck.finish(RULE)
